@@ -6,6 +6,10 @@ witness file moves from replays/CNN/known/ to replays/CNN/ (regression replay)."
 import os, re, glob, sys, shutil
 ROOT = "/verif"
 RULES = [  # (property, regex on sig, commit)
+ ("C32", r"SkipUnless|prefix", "901982a"), ("C04", r"mode|1006", "f9e623d"), ("C02", r"-00|zone", "769da7b"),
+ ("C20", r".", "70dad82"), ("C28", r"AddGlob", "dd29582"), ("C21", r"repack", "a149fa7"),
+ ("C29", r"^C29/Checkout(-create)?/refused:unstaged", "4bd6c6d"), ("C52", r".", "dabd18f"),
+ ("C53", r"[Gg]itattributes", "33b70c6"), ("C15", r"peel", "19f5bad"), ("C35", r"srvresp", "b4f9b7a"),
  ("C05", r".", "7caa9e3"),
  ("C06", r"empty-source", "188be0c"), ("C06", r"copy-after-backward-copy", "7f4c8e5"), ("C06", r".", "423e201"),
  ("C10", r".", "fff706b"), ("C42", r".", "b0fed67"), ("C43", r".", "57ed889"), ("C44", r".", "6792e7f"),
